@@ -11,10 +11,10 @@
 #include "cosched.h"
 
 enum { ST_END = 0, ST_SCHED, ST_SEL, ST_RESCHED };
-typedef struct { int type, es, n, dist, prio[4]; } step_t;
-#define SCHED(es, d, n, ...) { ST_SCHED, es, n, d, { __VA_ARGS__ } }
-#define SEL(es)              { ST_SEL, es, 0, 0, { 0 } }
-#define RESCHED(es, d)       { ST_RESCHED, es, 1, d, { 0 } }
+typedef struct { int type, es, n, dist, prio[4]; unsigned char hi[4]; /* task of the HIGH_PRIORITY class (gd: chain_front) */ } step_t;
+#define SCHED(es, d, n, ...) { ST_SCHED, es, n, d, { __VA_ARGS__ }, { 0 } }
+#define SEL(es)              { ST_SEL, es, 0, 0, { 0 }, { 0 } }
+#define RESCHED(es, d)       { ST_RESCHED, es, 1, d, { 0 }, { 0 } }
 #define MAXSTEP 4
 typedef struct {
     const char *name; int k, nthreads;
@@ -131,7 +131,7 @@ static void run_scen(const scen_t *sc)
     /* reserve the tasks of every schedule step (ids independent of the interleaving) */
     for (int t = 0; t < sc->nthreads; t++) for (int s = 0; s < MAXSTEP && sc->th[t][s].type != ST_END; s++) {
         resptr[t][s] = NULL; results[t][s] = -9;
-        if (sc->th[t][s].type == ST_SCHED) { resptr[t][s] = (parsec_task_t *)(intptr_t)ntasks; for (int i = 0; i < sc->th[t][s].n; i++) tasks[ntasks++].priority = sc->th[t][s].prio[i]; }
+        if (sc->th[t][s].type == ST_SCHED) { resptr[t][s] = (parsec_task_t *)(intptr_t)ntasks; for (int i = 0; i < sc->th[t][s].n; i++) { tasks[ntasks].task_class = sc->th[t][s].hi[i] ? &c08_tc_high : &c08_tc_plain; tasks[ntasks++].priority = sc->th[t][s].prio[i]; } }
     }
     /* ltq groups consecutive tasks sharing an input into one heap: pairs share, except in a capacity pre-fill (one heap per task, so that the buffer really fills up) */
     for (int i = (pf > 0 ? pf : 0); i < ntasks; i++) tasks[i].data[0].data_in = (parsec_data_copy_t *)(uintptr_t)(0x1000 + 64 * (i / 2));
@@ -170,6 +170,85 @@ R(0) R(1) R(2) R(3) R(4) R(5) R(6) R(7) R(8) R(9)
 static void (*const RUNS[])(void) = { run_0, run_1, run_2, run_3, run_4, run_5, run_6, run_7, run_8, run_9 };
 _Static_assert(sizeof(RUNS) / sizeof(RUNS[0]) == NSCN, "one run_<i> per scenario");
 
+/* ---- GENERATED scripts (bounded-exhaustive families; the enumeration lives in check.py, see NOTES.md "Generated families") ----
+ * A generated script is completely described by its TEXT, which is also its scenario name and therefore stored in the replay file:
+ *     <module>_k<K>_g_<P>_<ops of T0>_<ops of T1>[_<ops of T2>]          e.g.  llp_k2_g_H_S00a_S00cb
+ *   P     pre-fill of stream 0 before the threads start:  E empty | H two tasks, priorities 100,101 | C capacity-1 tasks of the local buffer, priorities 100..
+ *   ops   1..MAXSTEP operations joined by '.':
+ *           X<s>            select on stream s
+ *           S<s><d><ring>   schedule onto stream s with distance d a ring of 1..3 fresh tasks, one priority letter per task in ring order:
+ *                           a=40 b=50 c=60 (below the pre-fill)  x=1040 y=1050 z=1060 (above it); upper case = task of a HIGH_PRIORITY class
+ *           R<s><d>         re-schedule onto stream s with distance d the task returned by this thread's latest select (no-op if that was NULL)
+ *   Thread t owns stream t when t < K; a thread t >= K owns no stream (the communication thread).
+ * Usage contract (scheduling.c, checked here too so that a hand-typed text cannot violate it): X<s> only with s = the thread's own
+ * stream; S/R onto the thread's own stream or onto stream 0; R only after an X of the same thread with no R in between. */
+#define MAXGEN 1024
+static scen_t GSC[MAXGEN]; static char gnames[MAXGEN][128]; static int ngen = 0;
+static int letter_prio(int c) { switch (c | 0x20) { case 'a': return 40; case 'b': return 50; case 'c': return 60; case 'x': return 1040; case 'y': return 1050; case 'z': return 1060; } return -1; }
+static int parse_generated(const char *txt, const char *mod, int k, scen_t *sc, char *err, size_t elen)
+{
+    char pfx[32]; int o = snprintf(pfx, sizeof(pfx), "%s_k%d_g_", mod, k);
+    memset(sc, 0, sizeof(*sc));
+    if (strlen(txt) >= 128) { snprintf(err, elen, "script text too long"); return -1; }
+    if (strncmp(txt, pfx, o)) { snprintf(err, elen, "script is not for module %s on %d streams", mod, k); return -1; }
+    const char *p = txt + o;
+    sc->k = k; sc->prefill_es = 0; sc->prefill_dist = 0;
+    switch (*p) { case 'E': sc->prefill_n = 0; break; case 'H': sc->prefill_n = 2; break; case 'C': sc->prefill_n = -1; break; default: snprintf(err, elen, "bad pre-fill '%c'", *p); return -1; }
+    p++;
+    int t = 0;
+    while (*p == '_') {
+        p++;
+        if (t >= 3) { snprintf(err, elen, "more than 3 threads"); return -1; }
+        int own = t < k ? t : -1, s = 0, can_resched = 0;
+        for (;;) {
+            if (s >= MAXSTEP) { snprintf(err, elen, "more than %d operations in thread %d", MAXSTEP, t); return -1; }
+            step_t *st = &sc->th[t][s];
+            if (*p == 'X') {
+                int es = p[1] - '0'; if (es != own) { snprintf(err, elen, "contract: thread %d selects on stream %d it does not own", t, es); return -1; }
+                st->type = ST_SEL; st->es = es; p += 2; can_resched = 1;
+            } else if (*p == 'S' || *p == 'R') {
+                int es = p[1] - '0', d = p[2] - '0';
+                if (es < 0 || es >= k || (es != own && es != 0)) { snprintf(err, elen, "contract: thread %d schedules onto stream %d (neither its own nor stream 0)", t, es); return -1; }
+                if (d < 0 || d > 3) { snprintf(err, elen, "bad distance"); return -1; }
+                st->es = es; st->dist = d;
+                if (*p == 'R') {
+                    if (!can_resched) { snprintf(err, elen, "contract: thread %d re-schedules without a preceding select", t); return -1; }
+                    st->type = ST_RESCHED; st->n = 1; can_resched = 0; p += 3;
+                } else {
+                    st->type = ST_SCHED; p += 3;
+                    while (letter_prio(*p) >= 0) { if (st->n >= 3) { snprintf(err, elen, "ring of more than 3 tasks"); return -1; } st->prio[st->n] = letter_prio(*p); st->hi[st->n] = (*p >= 'A' && *p <= 'Z'); st->n++; p++; }
+                    if (st->n < 1) { snprintf(err, elen, "empty ring"); return -1; }
+                }
+            } else { snprintf(err, elen, "bad operation at '%s'", p); return -1; }
+            s++;
+            if (*p == '.') { p++; continue; }
+            break;
+        }
+        t++;
+    }
+    if (*p || t < 2) { snprintf(err, elen, "trailing text or fewer than 2 threads at '%s'", p); return -1; }
+    sc->nthreads = t;
+    return 0;
+}
+static int add_generated(const char *txt, const char *mod, int k)
+{
+    char err[160];
+    if (ngen >= MAXGEN) { fprintf(stderr, "c08: more than %d generated scripts in one invocation\n", MAXGEN); return -1; }
+    if (parse_generated(txt, mod, k, &GSC[ngen], err, sizeof(err))) { fprintf(stderr, "c08: generated script '%s' rejected: %s\n", txt, err); return -1; }
+    snprintf(gnames[ngen], sizeof(gnames[ngen]), "%s", txt); GSC[ngen].name = gnames[ngen];
+    ngen++; return 0;
+}
+/* cosched scenarios carry a parameterless run(): one trampoline per slot of GSC[] */
+#define G1(i) static void grun_##i(void) { run_scen(&GSC[0x##i]); }
+#define G16(p) G1(p##0) G1(p##1) G1(p##2) G1(p##3) G1(p##4) G1(p##5) G1(p##6) G1(p##7) G1(p##8) G1(p##9) G1(p##a) G1(p##b) G1(p##c) G1(p##d) G1(p##e) G1(p##f)
+#define G256(p) G16(p##0) G16(p##1) G16(p##2) G16(p##3) G16(p##4) G16(p##5) G16(p##6) G16(p##7) G16(p##8) G16(p##9) G16(p##a) G16(p##b) G16(p##c) G16(p##d) G16(p##e) G16(p##f)
+G256(0) G256(1) G256(2) G256(3)
+#define N1(i) grun_##i,
+#define N16(p) N1(p##0) N1(p##1) N1(p##2) N1(p##3) N1(p##4) N1(p##5) N1(p##6) N1(p##7) N1(p##8) N1(p##9) N1(p##a) N1(p##b) N1(p##c) N1(p##d) N1(p##e) N1(p##f)
+#define N256(p) N16(p##0) N16(p##1) N16(p##2) N16(p##3) N16(p##4) N16(p##5) N16(p##6) N16(p##7) N16(p##8) N16(p##9) N16(p##a) N16(p##b) N16(p##c) N16(p##d) N16(p##e) N16(p##f)
+static void (*const GRUNS[])(void) = { N256(0) N256(1) N256(2) N256(3) };
+_Static_assert(sizeof(GRUNS) / sizeof(GRUNS[0]) == MAXGEN, "one trampoline per generated slot");
+
 static const char *g_sched = "lfq"; static int g_k = 2;
 static const char *g_only[8]; static int g_nonly = 0;   /* --only <substring>: keep only matching scenarios */
 static const char *g_full[8]; static int g_nfull = 0;   /* --full <substring>: only matching scenarios go beyond preemption bound 1 */
@@ -177,20 +256,37 @@ static void setup(void) { if (c08_init(g_sched, g_k)) exit(2); }
 
 int main(int argc, char **argv)
 {
-    /* --sched / --streams are ours; everything else goes to cosched */
+    /* --sched / --streams / --only / --full / --gen / --gen-file are ours; everything else goes to cosched */
     char *av[64]; int ac = 0;
+    const char *gen_txt[MAXGEN]; int ngen_txt = 0; const char *replay = NULL; int check_only = 0;
+    static char filebuf[1 << 18];
     for (int i = 0; i < argc && ac < 60; i++) {
         if (!strcmp(argv[i], "--sched") && i + 1 < argc) g_sched = argv[++i];
         else if (!strcmp(argv[i], "--streams") && i + 1 < argc) g_k = atoi(argv[++i]);
         else if (!strcmp(argv[i], "--only") && i + 1 < argc && g_nonly < 8) g_only[g_nonly++] = argv[++i];
         else if (!strcmp(argv[i], "--full") && i + 1 < argc && g_nfull < 8) g_full[g_nfull++] = argv[++i];
-        else av[ac++] = argv[i];
+        else if (!strcmp(argv[i], "--gen") && i + 1 < argc) { if (ngen_txt < MAXGEN) gen_txt[ngen_txt++] = argv[++i]; else { fprintf(stderr, "c08: too many --gen\n"); return 2; } }
+        else if (!strcmp(argv[i], "--gen-file") && i + 1 < argc) {      /* one script text per line */
+            FILE *f = fopen(argv[++i], "r"); if (!f) { perror(argv[i]); return 2; }
+            size_t n = fread(filebuf, 1, sizeof(filebuf) - 1, f); fclose(f); filebuf[n] = 0;
+            for (char *q = strtok(filebuf, "\n"); q; q = strtok(NULL, "\n")) { if (!*q) continue; if (ngen_txt < MAXGEN) gen_txt[ngen_txt++] = q; else { fprintf(stderr, "c08: too many scripts in %s\n", argv[i]); return 2; } }
+        }
+        else if (!strcmp(argv[i], "--gen-check")) check_only = 1;     /* parse + contract check only */
+        else { if (!strcmp(argv[i], "--replay") && i + 1 < argc) replay = argv[i + 1]; av[ac++] = argv[i]; }
     }
     av[ac] = NULL;
     int mod = -1; for (int i = 0; i < S_N; i++) if (!strcmp(g_sched, c08_names[i])) mod = i;
     if (mod < 0) { fprintf(stderr, "unknown scheduler %s\n", g_sched); return 2; }
-    static cs_scenario_t scen[NSCN]; static char names[NSCN][96]; int n = 0;
-    for (int i = 0; i < NSCN; i++) {
+    /* the replay file of a generated script carries the script text as its scenario name: rebuild the script from it */
+    if (replay) {
+        static char rb[1 << 16]; FILE *f = fopen(replay, "r");
+        if (f) { size_t n = fread(rb, 1, sizeof(rb) - 1, f); fclose(f); rb[n] = 0;
+            char *q = strstr(rb, "\"scenario\":\""); if (q) { q += 12; char *e = strchr(q, '"'); if (e) { *e = 0; if (strstr(q, "_g_")) { gen_txt[0] = q; ngen_txt = 1; printf("generated script %s (rebuilt from the scenario text of the replay file)\n", q); } } } }
+    }
+    for (int i = 0; i < ngen_txt; i++) if (add_generated(gen_txt[i], g_sched, g_k)) return 2;
+    if (check_only) { printf("%d generated scripts accepted\n", ngen); return 0; }
+    static cs_scenario_t scen[NSCN + MAXGEN]; static char names[NSCN][96]; int n = 0;
+    for (int i = 0; i < NSCN && !ngen; i++) {
         if (SCN[i].k != g_k) continue;
         if (SCN[i].only_mods && !(SCN[i].only_mods & M(mod))) continue;
         if (g_nonly) { int hit = 0; for (int f = 0; f < g_nonly; f++) if (strstr(SCN[i].name, g_only[f])) hit = 1; if (!hit) continue; }
@@ -198,6 +294,12 @@ int main(int argc, char **argv)
         scen[n].name = names[n]; scen[n].run = RUNS[i]; scen[n].max_bound = SCN[i].max_bound;
         if (mod == S_LHQ && SCN[i].prefill_n < 0) scen[n].max_bound = 1;     /* pre-filled 96-slot buffer: ~700 points per execution */
         if (g_nfull) { int hit = 0; for (int f = 0; f < g_nfull; f++) if (strstr(SCN[i].name, g_full[f])) hit = 1; if (!hit) scen[n].max_bound = 1; }
+        n++;
+    }
+    /* generated scripts replace the hand-written ones in this invocation */
+    for (int i = 0; i < ngen; i++) {
+        scen[n].name = GSC[i].name; scen[n].run = GRUNS[i]; scen[n].max_bound = 0;
+        if (mod == S_LHQ && GSC[i].prefill_n < 0) scen[n].max_bound = 1;
         n++;
     }
     return cs_main(ac, av, "C08", scen, n, setup);
